@@ -230,7 +230,10 @@ def _transpose(rows):
   transpose = OrderedDict()
   values = OrderedDict()
   for row in reversed(rows):
-    values.update(row)
+    for key, val in row.items():
+      # Keep the first value that is not None (we go through rows in reverse).
+      if val is not None or key not in values:
+        values[key] = val
   for key, val in values.items():
     transpose[key] = Col(_grist_type(val), [row.get(key, None) for row in rows])
   return transpose
